@@ -283,6 +283,7 @@ def _invariance(case):
     counters = {"evals": 1, "steps_compared": 0, "blocks_compared": 0, "max_ratio": 0.0}
     gg = tgen(*case["seed"], "grads")
     gkind = rnd.choice(["dense", "dense", "lowrank", "sparse"])
+    ambiguous = set()
     desc = {"config": cfg, "shapes": shapes, "block_shapes": [list(b.shape) for b in blocksA], "presence": pk, "steps": T}
     for t in range(T):
         for j, p in enumerate(A_params):
@@ -295,6 +296,26 @@ def _invariance(case):
         optA.step()
         optB.step()
         counters["steps_compared"] += 1
+        if cfg["precond"]["kind"] == "soap":
+            # an eigenbasis is only determined up to rotations inside (near-)degenerate eigenspaces (rank-deficient early
+            # factors): when both twins accumulated the same factor matrices but the eigensolver returned different bases, the
+            # two runs are different valid SOAP runs (C03's subject) and the block is not compared any further
+            for i, (bi, pb) in enumerate(zip(infos, B_params)):
+                if i in ambiguous:
+                    continue
+                sa = optA.state[bi.param].get(bi.composable_block_ids[1], {}).get("shampoo")
+                sb = next((v.get("shampoo") for k, v in optB.state[pb].items() if isinstance(v, dict) and "shampoo" in v), None)
+                if sa is None or sb is None or not hasattr(sa, "factor_matrices_eigenvectors"):
+                    continue
+                for fa, fb in zip(sa.factor_matrices, sb.factor_matrices):
+                    if float((fa - fb).abs().max()) > 1e-9 * float(fb.abs().max()) + 1e-300:
+                        raise Violation(f"step {t + 1}: block {i} accumulated a different factor matrix than the same block optimised as a separate parameter", step=t + 1, block=i, **desc)
+                for qa, qb in zip(sa.factor_matrices_eigenvectors, sb.factor_matrices_eigenvectors):
+                    n_ = qa.shape[0]
+                    if qa.numel() and float(((qa.T @ qb).abs() - torch.eye(n_, dtype=qa.dtype)).abs().max()) > 1e-7:
+                        ambiguous.add(i)
+                        counters["soap_basis_ambiguous_blocks"] = counters.get("soap_basis_ambiguous_blocks", 0) + 1
+                        break
         for i, (ba, pb, a0, b0) in enumerate(zip(blocksA, B_params, beforeA, beforeB)):
             dA = ba.detach() - a0
             dB = pb.detach() - b0
@@ -302,8 +323,11 @@ def _invariance(case):
             tol = 1e-6 * scale + 1e-13 * (b0.abs() + 1e-300)
             r = float(((dA - dB).abs() / tol.clamp_min(1e-300)).max()) if dA.numel() else 0.0
             counters["blocks_compared"] += 1
-            counters["max_ratio"] = max(counters["max_ratio"], r)
-            if r > 1:
+            if i not in ambiguous:
+                counters["max_ratio"] = max(counters["max_ratio"], r)
+            if r > 1 and i in ambiguous:
+                counters["soap_mismatch_excused_by_basis_ambiguity"] = counters.get("soap_mismatch_excused_by_basis_ambiguity", 0) + 1
+            elif r > 1:
                 raise Violation(f"step {t + 1}: block {i} of the blocked tensor moved differently from the same block optimised as a separate parameter (ratio {r:.3g})", step=t + 1, block=i, blocked_delta=[float(x) for x in dA.flatten()[:5]], separate_delta=[float(x) for x in dB.flatten()[:5]], **desc)
             with torch.no_grad():
                 # keep the twins aligned so that rounding-level differences do not accumulate through ill-conditioned roots
